@@ -126,6 +126,61 @@ claim("C20",
       "unit text (C18)",
       "DESIGN.md section 6 C20")
 
+claim("C06",
+      "The 31 entries of the SI table, folded from the source with exact rational arithmetic, equal an independent "
+      "oracle (metric prefixes, min = 60 s, h = 3600 s, mol = Avogadro); the 7 litre and 9 molar symbols decompose "
+      "exactly (scale(litre symbol) = scale(space unit)^3, xM = xmol per dm^3) with the exponents 3e / -3e / e; "
+      "compute_conversion_factor multiplies (source / destination) ** exponent with one key for all five lookups over "
+      "the three kinds; label lists = table keys = decomposition branches; every conversion to a target carrying a "
+      "dimension is dominated by the dimension test and re-wraps (destination system, source dimension). Exhaustive "
+      "over the tables.",
+      "static analysis: constant folding with exact rationals against an oracle table, literal-table agreement, "
+      "must-fact dataflow for the dimension guard",
+      "the 1e-12 composition bound is not measured (it follows from the product-of-ratios structure)",
+      "DESIGN.md section 6 C06")
+
+claim("C13",
+      "get_state_index is species_index*size + cell_index with both resolved from its arguments and all four per-entry "
+      "accessors address exactly that entry; default state and chemostat map are concatenations in species order of "
+      "blocks of space.size() entries, entry i from the species' value in the environment label of cell i; "
+      "density x volume of the same cell is converted to the units system the block is then labelled with; "
+      "get_value_in_env falls back environment -> 'default' -> default; grid index and its decode are "
+      "x + y*w + z*w*h.",
+      "static analysis: polynomial normal forms of index expressions, structural / def-use checks over the ast, "
+      "must-fact dataflow for the fallback order",
+      "the values (density x volume numbers)",
+      "DESIGN.md section 6 C13")
+
+claim("C17",
+      "Every reshape of the trajectory data is (sample, species, cell) or (sample, state) and every subscript position "
+      "carries the matching index kind; the point accessor's flat index is sample*nspecies*ncells + species*ncells + "
+      "cell; species are resolved by the network with a raise on None and cells by the space; the three sample-index "
+      "lookups return under exactly the documented boundary, interval and tie conditions (they tile the time axis); "
+      "the query time is converted to the time array's units first.",
+      "static analysis: index-kind typing of subscripts, polynomial normal form, must-fact dataflow at every return",
+      "returned values",
+      "DESIGN.md section 6 C17")
+
+claim("C18",
+      "Table consistency only: no unit label contains a character the tokeniser treats specially and every label is a "
+      "fixed point of the u -> micro replacements; the replaced spellings are exactly the micro labels and do not "
+      "clobber each other; derived symbols decompose exactly and label lists agree with the tables (shared with C06); "
+      "the printer emits base labels with str(int) exponents joined by '.', value and unit separated by a blank.",
+      "static analysis: literal-table agreement and fixed-point check of the replacement rules over the ast",
+      "the tokeniser's behaviour on arbitrary and malformed text, and the bit-identical float round trip (most of the "
+      "property): these quantify over arbitrary strings",
+      "DESIGN.md section 6 C18")
+
+claim("C19",
+      "kf / kr dimension helpers are (3n-3, -1, 1-n) as affine forms in the coefficient sum of their own side; order, "
+      "ssto, kf read the reactant side and rorder, psto, kr the product side only, dsto is products - reactants; split "
+      "builds (reactants, products, kf) and (products, reactants, kr) with kr = 0 and the parent's units, K = kf / kr; "
+      "repeated labels accumulate; the network asserts validity at the end of construction; the engine's stoichiometric "
+      "matrices are [species][reaction] tables of ssto / dsto.",
+      "static analysis: polynomial normal forms, side-of-reaction read sets, structural wiring checks over the ast",
+      "parsing of arbitrary equations; the print-parse round trip",
+      "DESIGN.md section 6 C19")
+
 NOT_YET = {}
 
 def main():
